@@ -83,7 +83,8 @@ class World:
                        "object_is_context_operator_twice", "poke_inside_context", "secularize_inside_context",
                        "deepcopy_inside_context", "convert_inside_context", "eso_at_inside_context", "context_operator_not_looked_at", "propagation_inside_context", "time_dependent_tensor_in_pool", "evolution_at_inside_context",
                        "refused_construction_inside_context", "api_sweep_call",
-                       "context_object_reentered_while_active", "context_object_entered_again_after_exit"]
+                       "context_object_reentered_while_active", "context_object_entered_again_after_exit",
+                       "dipole_component_inside_context"]
     required_faults = ["F1_simfault", "F2_refused_write", "F3_dimension_mismatch"]
     components = {
         "real": ["Manager basis stack / registration / flags", "eigenbasis_of.__enter__/__exit__", "BasisManaged",
@@ -123,9 +124,9 @@ class World:
         if not any(c in CONTEXT_CLASSES for c in classes):
             classes.append("SelfAdjoint")
         opkinds = ["enter", "enter", "exit", "exit", "create", "read", "read", "write", "poke", "protect", "unprotect",
-                   "apply", "copy", "secularize", "convert", "fault", "badwrite", "opapply", "opadd", "esoat", "libprop", "evat", "badcreate", "apisweep"]
+                   "apply", "copy", "secularize", "convert", "fault", "badwrite", "opapply", "opadd", "esoat", "libprop", "evat", "badcreate", "apisweep", "tdmcomp"]
         if rng.random() < 0.5:
-            drop = rng.sample(["poke", "protect", "apply", "copy", "secularize", "convert", "fault", "badwrite", "opapply", "opadd", "esoat", "libprop", "evat", "badcreate", "apisweep"],
+            drop = rng.sample(["poke", "protect", "apply", "copy", "secularize", "convert", "fault", "badwrite", "opapply", "opadd", "esoat", "libprop", "evat", "badcreate", "apisweep", "tdmcomp"],
                               rng.randint(1, 5))
             opkinds = [k for k in opkinds if k not in drop]
         faultfree = rng.random() < 0.35
@@ -1215,6 +1216,29 @@ class Runner:
             self.ctx.probe("evolution_at_inside_context")
         self.ctx.ev(i, "evat", n, m, ti, self.depth)
         self.ctx.cov("evat", self.depth)
+
+    def op_tdmcomp(self, i, op):
+        """TransitionDipoleMoment.get_component(n) hands out one Cartesian component as a new managed operator."""
+        n = self.pick(op["k"], lambda o: o.cls == "TDM" and o.protected_at is None)
+        if n is None:
+            return
+        o = self.pool[n]
+        if self.access_expected_refusal(o):
+            return
+        c = op["s"] % 3
+        x0 = o.X0["data"][:, :, c]
+        if float(numpy.max(numpy.abs(x0 - x0.conj().T))) > 1e-12:
+            return          # get_component builds a self-adjoint operator: only symmetric components are legal input
+        self.touch_probe(o)
+        try:
+            R = o.real.get_component(c)
+        except Exception as e:
+            raise Violation("get-component-raises", "op %d: get_component at depth %d: %s: %s" % (i, self.depth, type(e).__name__, e))
+        m = self.add_obj("SelfAdjoint", R, {"data": numpy.array(o.X0["data"][:, :, c], dtype=complex)}, o.dim)
+        if self.depth >= 1:
+            self.ctx.probe("dipole_component_inside_context")
+        self.ctx.ev(i, "tdmcomp", n, m, c, self.depth)
+        self.ctx.cov("tdmcomp", self.depth)
 
     def op_badcreate(self, i, op):
         """A refused construction (non-square data) inside a context is a fault like any other refused operation."""
